@@ -5,7 +5,10 @@
   Vocabulary (Model/Reset.lean, Model/Server.lean):
     ReqSt = ReqLive + ReqKept + ReqStale   the modelled fields of request_st, grouped by what
                                            request_reset() / request_reset_ex() do with them;
-                                           ReqCore = ReqLive + ReqKept
+                                           ReqCore = ReqLive + ReqKept; `requestStClass` maps
+                                           every C member to its group
+    SlotsOk e slots                        every non-NULL r->plugin_ctx slot belongs to a module
+                                           whose reset hook clears it
     h1Msg site e c head                    one request head on an HTTP/1.x connection `c`
                                            (h1_recv_headers .. connection_handle_response_end_state)
     h2Stream site e h2r swin obj fs es     one HTTP/2 stream on the pooled request object `obj`
@@ -16,59 +19,87 @@ import LtVerif.Proofs.Server
 namespace LtVerif.C08
 open LtVerif LtVerif.B LtVerif.Req
 
-/-! ## reset -/
+/-! ## reset
 
-/-- **request_reset() + request_reset_ex() restore every core field.**  Whatever state a request
-    object is in (any values in all modelled fields: after a successful, failed, bodied, ranged,
-    authenticated or aborted request), after the two reset functions every `ReqLive` and
-    `ReqKept` field equals its value in a freshly initialised object.  (The remaining fields,
-    `ReqStale`, are covered by `c08_stale_fields_unread`.) -/
-theorem c08_reset_restores (e : SrvEnv) (s : ReqSt) :
+The three reset theorems compare two hand-written things: the model of the reset functions
+(`requestReset`, `requestResetEx`, `requestRelease`, written line by line after reqpool.c and
+http-header-glue.c) and the model of request_init_data() (`ReqSt.init`).  What they add to the
+definitions is that no field of `ReqLive` / `ReqKept` was forgotten by the reset code — for a C
+struct member that is the statement "request_reset() restores it".  That the models are the C
+functions is tested (stream `rst`); that `ReqLive`/`ReqKept`/`ReqStale` together with the notes
+below account for EVERY member of the C structs is `c08_every_member_classified`. -/
+
+/-- **request_reset() + request_reset_ex() restore every core field**, provided every module that
+    left something in its r->plugin_ctx slot registered a reset hook that clears it (`SlotsOk`;
+    `c08_slot_modules_clear` for the modules of the source tree).  Whatever else the state of
+    the object is (any values in all modelled fields), afterwards every `ReqLive` and `ReqKept`
+    field equals its value in a freshly initialised object. -/
+theorem c08_reset_restores (e : SrvEnv) (s : ReqSt) (hs : SlotsOk e s.pluginCtx) :
     (requestResetEx (requestReset hdrIds e s)).toReqCore = (ReqSt.init e).toReqCore :=
-  reset_core e s
+  reset_core e s hs
 
-/-- request_reset() alone (what happens between two keep-alive requests; request_reset_ex()
-    follows when the next head has arrived) restores every `ReqLive` field. -/
-theorem c08_reset_restores_live (e : SrvEnv) (s : ReqSt) :
-    (requestReset hdrIds e s).toReqLive = (ReqSt.init e).toReqLive :=
-  requestReset_live e s
-
-/-- request_release() (HTTP/2 stream objects going back to the pool) restores every core field. -/
-theorem c08_release_restores (e : SrvEnv) (s : ReqSt) :
+/-- request_release() (HTTP/2 stream objects going back to the pool), same proviso. -/
+theorem c08_release_restores (e : SrvEnv) (s : ReqSt) (hs : SlotsOk e s.pluginCtx) :
     (requestRelease hdrIds e s).toReqCore = (ReqSt.init e).toReqCore :=
-  requestRelease_core e s
+  requestRelease_core e s hs
 
-/-- A stream object taken from the pool differs from a brand-new one only in `ReqStale` fields,
-    and h2_init_stream() makes the core fields of both equal (they inherit the same
-    configuration state from the connection request `h2r`). -/
-theorem c08_h2_init_stream_recycled (e : SrvEnv) (h2r prev : ReqSt) (swin : Nat) :
-    (h2InitStream h2r swin (requestRelease hdrIds e prev)).toReqCore =
-      (h2InitStream h2r swin (ReqSt.init e)).toReqCore :=
-  h2InitStream_core h2r swin _ _ (requestRelease_core e prev)
+/-- The proviso is needed: the reset functions themselves do not touch r->plugin_ctx[]; what a
+    module without a clearing hook leaves in its slot is still there for the next request. -/
+theorem c08_reset_slot_without_hook_survives :
+    ∃ (e : SrvEnv) (s : ReqSt),
+      (requestResetEx (requestReset hdrIds e s)).toReqCore ≠ (ReqSt.init e).toReqCore :=
+  ⟨{ nPlugins := 3, resetHooks := [1, 2] },
+   { ReqSt.init { nPlugins := 3, resetHooks := [1, 2] } with pluginCtx := [(3, [])] }, by decide +kernel⟩
 
-/-! ## HTTP/1.x: keep-alive, pipelining, recycled connection objects -/
+/-- **Every module of the source tree that stores into r->plugin_ctx[] registers a
+    handle_request_reset hook, and that hook reaches code that clears the slot** (table extracted
+    from src/*.c by tools/ltv/extractors_c08.py; the recogniser is textual and trusted). -/
+theorem c08_slot_modules_clear :
+    ∀ m ∈ Extracted.slotModules, m.2.1 = true ∧ m.2.2 = true := by decide +kernel
+
+/-- **Every member of struct request_st and of struct connection is classified** (member lists
+    from the clang AST): restored by request_reset() / by request_reset_ex() / carried but typed
+    out of the response path / constant / scratch with a written-before-read note / connection
+    level.  A member added to either struct fails this theorem until it is classified. -/
+theorem c08_every_member_classified :
+    sameNames Extracted.requestStMembers requestStClass = true ∧
+    sameNames Extracted.connectionMembers connectionClass = true := by decide +kernel
+
+/-! ## HTTP/1.x: keep-alive, pipelining, recycled connection objects
+
+`P` is what arrived on the connection before, cut into the pieces the server handled one at a
+time; each piece starts the way a request starts (`ReqStart`: first byte not a control byte — the
+blank-line rules of h1_recv_headers() make the treatment of CR/LF depend on whether a blank line
+was skipped before, which is a property of the byte stream, not of a request; they are in the
+model and tested by stream `conn`, not covered here).  `1 ∈ e.resetHooks`: mod_setenv, the one
+modelled module that uses its r->plugin_ctx slot, clears it in its reset hook. -/
 
 /-- **The response is a function of the request (HTTP/1.x).**  After any history `P` of request
-    heads on the connection — accepted or rejected, any methods, with or without announced
-    bodies — if the connection is still open, the comparable part of the answer to the head `R`
-    is `expectedAnswer site e R`, which mentions only the site, the configuration and `R`. -/
-theorem c08_history_free (site : Site) (e : SrvEnv) (P : List Bytes) (R : Bytes)
+    heads on the connection — accepted or rejected, any methods, bodies read by a handler — if the
+    connection is still open, the comparable part of the answer to the head `R` is
+    `expectedAnswer site e R`, which mentions only the site, the configuration and `R`.
+    (In the model a connection stays open after a rejected head or after a body no handler read
+    only in the cases the server keeps it open; see the examples at the end for histories that do.) -/
+theorem c08_history_free (site : Site) (e : SrvEnv) (h1h : 1 ∈ e.resetHooks) (P : List Bytes) (R : Bytes)
+    (hP : ∀ h ∈ P, ReqStart h) (hR : ReqStart R)
     (hopen : (connAfter site e (Conn.fresh e) P).isOpen = true) :
     ((h1Msg site e (connAfter site e (Conn.fresh e) P) R).2).map Out.core = expectedAnswer site e R :=
-  (h1Msg_answer site e _ (connInv_after site e P _ (ConnInv_fresh e)) hopen R).1
+  (h1Msg_answer site e h1h _ (connInv_after site e h1h P hP _ (ConnInv_fresh e)) hopen R hR).1
 
 /-- Metamorphic form: `R` after `P` on the same connection is answered like `R` alone on a fresh
     connection. -/
-theorem c08_history_free_vs_alone (site : Site) (e : SrvEnv) (P : List Bytes) (R : Bytes)
+theorem c08_history_free_vs_alone (site : Site) (e : SrvEnv) (h1h : 1 ∈ e.resetHooks) (P : List Bytes) (R : Bytes)
+    (hP : ∀ h ∈ P, ReqStart h) (hR : ReqStart R)
     (hopen : (connAfter site e (Conn.fresh e) P).isOpen = true) :
     ((h1Msg site e (connAfter site e (Conn.fresh e) P) R).2).map Out.core =
       ((h1Msg site e (Conn.fresh e) R).2).map Out.core := by
-  rw [c08_history_free site e P R hopen]
-  exact (h1Msg_answer site e _ (ConnInv_fresh e) rfl R).1.symm
+  rw [c08_history_free site e h1h P R hP hR hopen]
+  exact (h1Msg_answer site e h1h _ (ConnInv_fresh e) rfl R hR).1.symm
 
 /-- Every element of a pipelined / keep-alive run is either unanswered (the connection was closed
     before, or the head is incomplete) or the function of its own head. -/
-theorem c08_every_answer_from_own_request (site : Site) (e : SrvEnv) (msgs : List Bytes) :
+theorem c08_every_answer_from_own_request (site : Site) (e : SrvEnv) (h1h : 1 ∈ e.resetHooks) (msgs : List Bytes)
+    (hm : ∀ h ∈ msgs, ReqStart h) :
     ∀ c, ConnInv e c →
       Forall2 (fun head o => o = none ∨ o.map Out.core = expectedAnswer site e head)
         msgs (h1Run site e c msgs) := by
@@ -78,58 +109,53 @@ theorem c08_every_answer_from_own_request (site : Site) (e : SrvEnv) (msgs : Lis
     intro c h
     unfold h1Run
     simp only []
+    have ih' := ih (fun x hx => hm x (by simp [hx]))
     by_cases ho : c.isOpen = true
-    · have ha := h1Msg_answer site e c h ho head
-      exact Forall2.cons (Or.inr ha.1) (ih _ ha.2)
-    · have hm : h1Msg site e c head = (c, none) := by simp [h1Msg, ho]
-      rw [hm]
-      exact Forall2.cons (Or.inl rfl) (ih _ h)
+    · have ha := h1Msg_answer site e h1h c h ho head (hm head (by simp))
+      exact Forall2.cons (Or.inr ha.1) (ih' _ ha.2)
+    · have hmm : h1Msg site e c head = (c, none) := by simp [h1Msg, ho]
+      rw [hmm]
+      exact Forall2.cons (Or.inl rfl) (ih' _ h)
 
 /-- **Recycled connection objects.**  A connection object that went through any history, was
-    closed and is accepted again answers like a brand-new one. -/
-theorem c08_recycled_connection (site : Site) (e : SrvEnv) (P : List Bytes) (R : Bytes)
+    closed and is accepted again answers like a brand-new one.  (Request object only: the
+    connection-level members are `connOutside` in `connectionClass`; known finding KF1 lives there.) -/
+theorem c08_recycled_connection (site : Site) (e : SrvEnv) (h1h : 1 ∈ e.resetHooks) (P : List Bytes) (R : Bytes)
+    (hP : ∀ h ∈ P, ReqStart h) (hR : ReqStart R)
     (hclosed : (connAfter site e (Conn.fresh e) P).requestCount = 0) :
     ((h1Msg site e (connAfter site e (Conn.fresh e) P).reaccept R).2).map Out.core = expectedAnswer site e R := by
-  have hinv := connInv_after site e P _ (ConnInv_fresh e)
+  have hinv := connInv_after site e h1h P hP _ (ConnInv_fresh e)
   have hre : ConnInv e (connAfter site e (Conn.fresh e) P).reaccept := ⟨hinv.1, fun _ => hinv.2 hclosed⟩
-  exact (h1Msg_answer site e _ hre rfl R).1
+  exact (h1Msg_answer site e h1h _ hre rfl R hR).1
 
-/-- **The fields no reset function restores are never read before they are written**: replacing
-    them by arbitrary values (`d`) in the request object of a connection between two requests does
-    not change the answer to the next request. -/
-theorem c08_stale_fields_unread (site : Site) (e : SrvEnv) (c : Conn) (hinv : ConnInv e c)
-    (hopen : c.isOpen = true) (d : ReqStale) (R : Bytes) :
-    ((h1Msg site e { c with r := { c.r with toReqStale := d } } R).2).map Out.core =
-      ((h1Msg site e c R).2).map Out.core := by
-  have h1 := (h1Msg_answer site e c hinv hopen R).1
-  have hinv' : ConnInv e { c with r := { c.r with toReqStale := d } } := hinv
-  have h2 := (h1Msg_answer site e _ hinv' hopen R).1
-  rw [h1, h2]
+/-! ## HTTP/2: earlier streams, recycled stream objects
 
-/-! ## HTTP/2: earlier streams, concurrently open streams, recycled stream objects -/
+A stream is one step in the model (HEADERS in, response out, object released): there is no
+interleaving of the processing of two streams to quantify over.  What the theorems give for
+concurrently open streams is only that each is answered from its own pooled object, whatever that
+object went through before; scheduling, flow control and the HPACK tables are C05–C07. -/
 
 /-- **The response is a function of the request (HTTP/2 stream).**  Whatever pooled object a stream
     gets — brand new, or released by any earlier stream of this or another connection — the
     comparable part of its answer is `expectedAnswerH2`, which mentions only the site, the
-    configuration, the connection-level state `h2r` and the stream's own header fields; and the
-    object goes back to the pool with all core fields restored.  Streams that are open at the same
-    time hold different objects, so this also covers every interleaving of concurrent streams. -/
-theorem c08_h2_stream_history_free (site : Site) (e : SrvEnv) (h2r prev : ReqSt) (swin : Nat)
-    (fs : List (Bytes × Bytes)) (es : Bool) :
+    configuration, the connection-level request `h2r` and the stream's own header fields; and the
+    object goes back to the pool with all core fields restored. -/
+theorem c08_h2_stream_history_free (site : Site) (e : SrvEnv) (h1h : 1 ∈ e.resetHooks) (h2r prev : ReqSt)
+    (hprev : SlotsOk e prev.pluginCtx) (swin : Nat) (fs : List (Bytes × Bytes)) (es : Bool) :
     ((h2Stream site e h2r swin (requestRelease hdrIds e prev) fs es).2).map Out.core
       = expectedAnswerH2 site e h2r swin fs es ∧
     ((h2Stream site e h2r swin (ReqSt.init e) fs es).2).map Out.core
       = expectedAnswerH2 site e h2r swin fs es :=
-  ⟨(h2Stream_answer site e h2r swin _ (requestRelease_core e prev) fs es).1,
-   (h2Stream_answer site e h2r swin _ rfl fs es).1⟩
+  ⟨(h2Stream_answer site e h1h h2r swin _ (requestRelease_core e prev hprev) fs es).1,
+   (h2Stream_answer site e h1h h2r swin _ rfl fs es).1⟩
 
 /-- a pool in which every object has its core fields restored -/
 def PoolOk (e : SrvEnv) (pool : List ReqSt) : Prop := ∀ p ∈ pool, p.toReqCore = (ReqSt.init e).toReqCore
 
 /-- Every stream of a connection (any number of earlier streams, any pool contents left behind by
     other connections) is answered by the function of its own header fields. -/
-theorem c08_h2_every_stream_from_own_request (site : Site) (e : SrvEnv) (h2r : ReqSt) (swin : Nat)
-    (streams : List (List (Bytes × Bytes) × Bool)) :
+theorem c08_h2_every_stream_from_own_request (site : Site) (e : SrvEnv) (h1h : 1 ∈ e.resetHooks) (h2r : ReqSt)
+    (swin : Nat) (streams : List (List (Bytes × Bytes) × Bool)) :
     ∀ pool, PoolOk e pool →
       Forall2 (fun st o => o.map Out.core = expectedAnswerH2 site e h2r swin st.1 st.2)
         streams (h2Run site e h2r swin pool streams) := by
@@ -142,7 +168,7 @@ theorem c08_h2_every_stream_from_own_request (site : Site) (e : SrvEnv) (h2r : R
     cases pool with
     | nil =>
       simp only []
-      have ha := h2Stream_answer site e h2r swin (ReqSt.init e) rfl fs es
+      have ha := h2Stream_answer site e h1h h2r swin (ReqSt.init e) rfl fs es
       refine Forall2.cons ha.1 (ih _ ?_)
       intro p hp
       simp only [List.mem_singleton] at hp
@@ -150,13 +176,37 @@ theorem c08_h2_every_stream_from_own_request (site : Site) (e : SrvEnv) (h2r : R
     | cons p ps =>
       simp only []
       have hp0 : p.toReqCore = (ReqSt.init e).toReqCore := hpool p (by simp)
-      have ha := h2Stream_answer site e h2r swin p hp0 fs es
+      have ha := h2Stream_answer site e h1h h2r swin p hp0 fs es
       refine Forall2.cons ha.1 (ih _ ?_)
       intro q hq
       simp only [List.mem_cons] at hq
       rcases hq with hq | hq
       · rw [hq]; exact ha.2
       · exact hpool q (by simp [hq])
+
+/-- **The connection-level request `h2r` is not a channel.**  Of everything a stream inherits from
+    `h2r` in h2_init_stream() (configuration, condition cache and validity bits, regex captures,
+    server_name selector, send window) only the configuration and the server_name selector can
+    reach the answer: two `h2r` that agree on these give the same answer to every stream.
+    (No stream writes `h2r`; h2.c patches `h2r->conf` once, when the connection starts.) -/
+theorem c08_h2_answer_depends_on_h2r_conf_only (site : Site) (e : SrvEnv) (a b : ReqSt) (swin swin' : Nat)
+    (hconf : a.conf = b.conf) (hsn : a.serverName = b.serverName) (fs : List (Bytes × Bytes)) (es : Bool) :
+    expectedAnswerH2 site e a swin fs es = expectedAnswerH2 site e b swin' fs es :=
+  expectedAnswerH2_h2r site e a b swin swin' hconf hsn fs es
+
+/-- **HTTP/2 on a recycled connection object.**  When the connection object that carries the HTTP/2
+    connection (prior knowledge: no HTTP/1.x request on it since accept) went through any
+    HTTP/1.x history before it was closed and accepted again, every stream is answered as on a
+    brand-new connection object.  (HTTP/2 after `Upgrade: h2c`, where `h2r` is the object that just
+    parsed the upgrade request, is covered by the end-to-end h2c streams only.) -/
+theorem c08_h2_recycled_connection (site : Site) (e : SrvEnv) (h1h : 1 ∈ e.resetHooks) (P : List Bytes)
+    (hP : ∀ h ∈ P, ReqStart h) (hclosed : (connAfter site e (Conn.fresh e) P).requestCount = 0)
+    (swin swin' : Nat) (fs : List (Bytes × Bytes)) (es : Bool) :
+    expectedAnswerH2 site e (connAfter site e (Conn.fresh e) P).reaccept.r swin fs es
+      = expectedAnswerH2 site e (ReqSt.init e) swin' fs es := by
+  have hinv := connInv_after site e h1h P hP _ (ConnInv_fresh e)
+  have hre : ConnInv e (connAfter site e (Conn.fresh e) P).reaccept := ⟨hinv.1, fun _ => hinv.2 hclosed⟩
+  exact expectedAnswerH2_conn site e _ hre rfl swin swin' fs es
 
 /-! ## the same request over HTTP/1.1 and HTTP/2 -/
 
@@ -205,13 +255,15 @@ theorem c08_h2_field_loop_same_record (o : Opts) (mf : Nat) (m t a : Bytes) (fs 
     | .ok r1 => ∃ c, h2Fields o mf pre2 {} (pseudoFields m t a ++ fs) = .ok (asH2 r1, c) ∧ c.ext = false :=
   h2Fields_spec o mf m t a fs hm hmne hnc htsl htok hane halen haval hpl hsz
 
-/-! ## non-vacuity: a concrete site, a concrete history -/
+/-! ## non-vacuity: a concrete site, concrete histories -/
 
 def demoSite : Site :=
   { nodes := [(ofString "/srv", .dir), (ofString "/srv/", .dir),
               (ofString "/srv/a.txt", .file (ofString "text/plain") (ofString "hello\n") (ofString "\"e1\"")),
+              (ofString "/srv/s.cgi", .file (ofString "text/plain") (ofString "#!") (ofString "\"e3\"")),
               (ofString "/srv/index.html", .file (ofString "text/html") (ofString "<p>i</p>") (ofString "\"e2\""))],
     indexNames := [ofString "index.html"], denySuffix := [ofString "~"],
+    sinkExt := [ofString ".cgi"], sinkBody := ofString "ok\n",
     scopes := [{ cond := .urlPrefix (ofString "/a"), extra := some [(ofString "X-A", ofString "1")] }] }
 
 def demoEnv : SrvEnv :=
@@ -220,6 +272,17 @@ def demoEnv : SrvEnv :=
 def reqA : Bytes := ofString "GET /a.txt HTTP/1.1\r\nHost: h\r\n\r\n"
 def reqMissing : Bytes := ofString "GET /nope HTTP/1.1\r\nHost: h\r\nCookie: c=1\r\n\r\n"
 def reqPost : Bytes := ofString "POST /a.txt HTTP/1.1\r\nHost: h\r\nContent-Length: 3\r\n\r\n"
+def reqPostSink : Bytes := ofString "POST /s.cgi HTTP/1.1\r\nHost: h\r\nContent-Length: 3\r\n\r\n"
+
+example : 1 ∈ demoEnv.resetHooks := by decide
+example : ReqStart reqA := ⟨71, by decide, by decide⟩
+example : ∀ h ∈ [reqMissing, reqPostSink, reqPost], ReqStart h := by
+  intro h hh
+  simp only [List.mem_cons, List.not_mem_nil, or_false] at hh
+  rcases hh with rfl | rfl | rfl
+  · exact ⟨71, by decide, by decide⟩
+  · exact ⟨80, by decide, by decide⟩
+  · exact ⟨80, by decide, by decide⟩
 
 /-- the connection survives a 404 and the probe is answered 200 with the file, the configured
     header of its own scope and nothing of the earlier request -/
@@ -228,9 +291,24 @@ example : ((h1Msg demoSite demoEnv (connAfter demoSite demoEnv (Conn.fresh demoE
     = some (200, [(ofString "content-type", ofString "text/plain"), (ofString "etag", ofString "\"e1\""),
                   (ofString "content-length", ofString "6"), (ofString "x-a", ofString "1")], ofString "hello\n") := by
   decide +kernel
-/-- a request that announces a body closes the connection; the recycled object answers as new -/
+/-- a bodied history the hypotheses of `c08_history_free` admit: the handler read the body, the
+    connection stays open, the next request is answered -/
+example : (connAfter demoSite demoEnv (Conn.fresh demoEnv) [reqPostSink, reqMissing]).isOpen = true := by decide +kernel
+example : ((h1Msg demoSite demoEnv (Conn.fresh demoEnv) reqPostSink).2).map (fun o => (o.core.1, o.core.2.2))
+    = some (200, ofString "ok\n") := by decide +kernel
+/-- between two keep-alive requests the object is NOT equal to a fresh one: the read checkpoint
+    carries the byte count of the history (`ReqStale`), unread by the response path -/
+example : (connAfter demoSite demoEnv (Conn.fresh demoEnv) [reqA]).r.x1 = 32 ∧
+          (connAfter demoSite demoEnv (Conn.fresh demoEnv) [reqA]).r.toReqLive = (ReqSt.init demoEnv).toReqLive := by
+  decide +kernel
+/-- a body nobody read closes the connection; the recycled object answers as new -/
 example : (connAfter demoSite demoEnv (Conn.fresh demoEnv) [reqA, reqPost]).requestCount = 0 := by decide +kernel
 example : (expectedAnswer demoSite demoEnv reqA).map (·.1) = some 200 := by decide +kernel
+/-- blank lines (outside `ReqStart`): first on a connection: 400; one before a keep-alive request: skipped -/
+example : ((h1Msg demoSite demoEnv (Conn.fresh demoEnv) (ofString "\r\n" ++ reqA)).2).map (·.core.1) = some 400 := by
+  decide +kernel
+example : ((h1Msg demoSite demoEnv (connAfter demoSite demoEnv (Conn.fresh demoEnv) [reqMissing])
+            (ofString "\r\n" ++ reqA)).2).map (·.core.1) = some 200 := by decide +kernel
 /-- a dirty object: reset really has something to restore -/
 example : (respond demoSite { ReqSt.init demoEnv with method := 0, version := 1, uriPath := some (ofString "/nope") }).toReqCore
     ≠ (ReqSt.init demoEnv).toReqCore := by decide +kernel
